@@ -49,53 +49,54 @@ type frame struct {
 }
 
 type Exec struct {
-	tf             *TF
-	eng            *Engine
-	prog           *ssa.Program
-	solver         *Solver
-	harness        string
-	pc             []*Term
-	facts          map[int]bool
-	prefix         []int
-	decs           []int
-	alts           [][]int
-	globals        map[*ssa.Global]Node
-	readMemo       map[[2]int]*Term
-	labelSeq       map[string]int
-	objCounter     int
-	steps          int
-	depth          int
-	stack          []*ssa.Function
-	violations     []*Violation
-	reached        map[string]bool
-	observed       []string
-	inits          map[*ssa.Package]bool
-	concrete       map[string]uint64 // concrete mode: values for nondeterministic primitives
-	concMode       bool
-	unwind         int
-	accel          []string
-	intrUsed       map[string]bool
-	funcsRun       map[*ssa.Function]bool
-	assumedKnown   map[string]bool
-	curPos         token.Pos
-	sentinels      map[string]Value
-	pool           map[Node][]Value
-	timeSeq        int
-	harnessPkg     *ssa.Package
-	bypass         map[*ssa.Function]bool
-	onceDone       map[Node]bool
-	lastNow        *Term
-	choiceVals     map[string]uint64
-	scratch        bool
-	concreteCopies bool
-	pins           map[string]uint64
-	witnesses      []*witness
-	pendingNotes   []oblNote
-	bounds         map[int]rng
-	rngMemo        map[int]rng
-	factJournal    *[]int
-	accelSeq       int
-	harnessFn      *ssa.Function
+	tf                *TF
+	eng               *Engine
+	prog              *ssa.Program
+	solver            *Solver
+	harness           string
+	pc                []*Term
+	facts             map[int]bool
+	prefix            []int
+	decs              []int
+	alts              [][]int
+	globals           map[*ssa.Global]Node
+	readMemo          map[[2]int]*Term
+	labelSeq          map[string]int
+	objCounter        int
+	steps             int
+	depth             int
+	stack             []*ssa.Function
+	violations        []*Violation
+	reached           map[string]bool
+	observed          []string
+	inits             map[*ssa.Package]bool
+	concrete          map[string]uint64 // concrete mode: values for nondeterministic primitives
+	concMode          bool
+	unwind            int
+	accel             []string
+	intrUsed          map[string]bool
+	funcsRun          map[*ssa.Function]bool
+	assumedKnown      map[string]bool
+	curPos            token.Pos
+	sentinels         map[string]Value
+	pool              map[Node][]Value
+	timeSeq           int
+	harnessPkg        *ssa.Package
+	bypass            map[*ssa.Function]bool
+	onceDone          map[Node]bool
+	lastNow           *Term
+	choiceVals        map[string]uint64
+	scratch           bool
+	nativeUnsupported bool
+	concreteCopies    bool
+	pins              map[string]uint64
+	witnesses         []*witness
+	pendingNotes      []oblNote
+	bounds            map[int]rng
+	rngMemo           map[int]rng
+	factJournal       *[]int
+	accelSeq          int
+	harnessFn         *ssa.Function
 }
 
 func (ex *Exec) posStr(p token.Pos) string {
